@@ -428,6 +428,9 @@ class Num:
     def copy(self):
         return self
 
+    def tolist(self):
+        return self
+
 
 def num(x):
     if isinstance(x, Num):
